@@ -14,6 +14,11 @@ extern const handle_type HANDLE_INVALID;
 // Sets the `FD_CLOEXEC` flag on the file descriptor. POSIX only.
 int handle_cloexec(handle_type handle, bool enable);
 
+// Replaces `*handle` with a duplicate above the standard stream file descriptors
+// (0-2) if it is one of them (which happens when the parent process has closed
+// some of its own standard streams). POSIX only.
+int handle_nonstd(handle_type *handle);
+
 // Closes `handle` if it is not an invalid handle and returns an invalid handle.
 // Does not overwrite the last system error if an error occurs while closing
 // `handle`.
